@@ -6,10 +6,11 @@ expression/if-chain parser and emitted as a Lean definition over the `FL` interf
 (`Spade/FloatLike.lean`).  The C06/C08/C14/C20 theorems are stated about the generated
 definitions, so a change to one of these functions changes the proof obligation itself.
 
-If a function's shape is not recognised the translator prints `FALLBACK <name>: <reason>`, keeps
-the last committed hand-checked definition for that function (from Spade/Generated/fallback/) and
-exits with status 0; the property check then records `translator_fallback` and relies on the
-correspondence run for that function.
+If a function's shape is not recognised the translator stops with an error and leaves the
+previously generated `Spade/Generated/Leaf.lean` (tracked in git) untouched; `bin/check` records
+"translator T0 failed" as a broken obligation, still builds and runs the correspondence with the
+previous definitions (so that a concrete failing input can be reported) and, if none is found,
+reports the violation with `no-failing-input-found`.
 """
 import os, re, sys, struct
 
